@@ -62,6 +62,12 @@ def score_consistency(ctx, tag, call, s1, x, inp, retag=None):
     return v, s, g
 
 
+def s1_tuple(obj, a):
+    sc, g = obj.evaluateS1(a)
+    sc = float(sc)
+    return (sc, np.array(g, float)) if math.isfinite(sc) else (sc,)
+
+
 def held_and_arguments(ctx, tag, obj, x, inp):
     """a gradient handed out earlier stays what it was when the object is evaluated elsewhere; the caller's
     vector is left alone"""
@@ -93,8 +99,10 @@ def whole_numbers(ctx, tag, obj, x, inp):
 # ------------------------------------------------------------------------------------------------
 def loglik_case(ctx, chi, rng, i):
     kinds, grids, obs, n_mech, psi, sig = c01.gen_case(rng)
-    if any(s <= 0 for s in sig):
+    boundary = any(s <= 0 for s in sig) and rng.random() < 0.6
+    if any(s <= 0 for s in sig) and not boundary:
         sig = [abs(s) + 0.3 for s in sig]
+    # (boundary: an error parameter exactly 0 or negative stays — both evaluation kinds must say -inf there)
     _, ll = c01.build(chi, kinds, grids, obs, n_mech, i)
     names = ll.get_parameter_names()
     x_full = np.concatenate([psi, sig])
@@ -127,9 +135,12 @@ def loglik_case(ctx, chi, rng, i):
     fd_all(ctx, ll, x, g, 'C03.LogLikelihood.gradient_is_derivative', inp)
     whole_numbers(ctx, 'C03.LogLikelihood', ll, x, inp)
     held_and_arguments(ctx, 'C03.LogLikelihood', ll, x, inp)
+    if i % 3 == 1:
+        ctx.inplace_reuse('C03.LogLikelihood.array_changed_in_place_between_calls',
+                          lambda a: s1_tuple(ll, a), x, x * np.linspace(1.1, 1.3, len(x)), inp)
     # correspondence with the Lean model of the assembly (unfixed objects)
     if not fixed:
-        model = toy.ToyModel(len(kinds), n_mech, i)
+        model = toy.ToyModel(len(kinds), n_mech, i, c01.offsets(kinds, i))
         outs = []
         for o in range(len(kinds)):
             yb = [model.value(psi, o, t) for t in grids[o]]
@@ -189,6 +200,9 @@ def hier_case(ctx, chi, rng, i, subs=None, n_ids=None):
             fixed[names_top[j]] = float(top[j])
         pm.fix_parameters(fixed)
     free = np.array([n not in fixed for n in names_top])
+    boundary = rng.random() < 0.06 and len(top) > 0
+    if boundary:
+        top[int(rng.integers(len(top)))] = 0.0
     hll = chi.HierarchicalLogLikelihood(lls, pm, covariates=cov)
     nH = sum(nd for c, nd, _, _ in subs if c not in (5, 6))
     bottom = rng.uniform(0.5, 1.5, n_ids * nH)
@@ -214,12 +228,15 @@ def hier_case(ctx, chi, rng, i, subs=None, n_ids=None):
         return
     rt = TAG3 if cov_pooled else None
     v, s, g = score_consistency(ctx, 'C03.Hierarchical', hll, hll.evaluateS1, x, inp, retag=rt)
-    if g is None or not math.isfinite(v):
-        return
+    if g is None or not math.isfinite(v) or boundary:
+        return          # (at a boundary value finite differences would step outside the support)
     fd_all(ctx, hll, x, g, (TAG3 if cov_pooled else 'C03.Hierarchical.gradient_is_derivative'), inp)
     if not cov_pooled:
         whole_numbers(ctx, 'C03.Hierarchical', hll, x, inp)
     held_and_arguments(ctx, 'C03.Hierarchical', hll, x, inp)
+    if i % 3 == 1:
+        ctx.inplace_reuse('C03.Hierarchical.array_changed_in_place_between_calls',
+                          lambda a: s1_tuple(hll, a), x, x * np.linspace(1.1, 1.3, len(x)), inp)
     # glue: placement of the sub-models' blocks (Lean model) against the composed model's result
     if not fixed and not bare:
         try:
